@@ -312,9 +312,20 @@ HAND = [
 ]
 
 
+# partials reached by extends / include / render under names that are not plain words: the template a location names is the one it lies in
+NAMED_SETS = []
+for _n1, _n2 in (("layouts/base.html", "dir/p.liquid"), ("my base", "a b/c d"), ("if", "for"), ("base.v2", "p-1.0"), ("ünï/cödé", "日本/語"), ("true", "nil"), ("a'b", "q.r/s.t")):
+    NAMED_SETS.append(("{% extends \"" + _n1 + "\" %}{% block b %}{{ x | upcase }}{% assign loc = y.z %}{% endblock %}\n{% block c %}{% include \"" + _n2 + "\" %}{% endblock %}",
+                       {_n1: "A{{ top.level }}\n{% block b %}{{ inner | size }}{% endblock %}|{% block c %}{% endblock %}{% render \"" + _n2 + "\", v: arg.one %}", _n2: "\n  {{ zed | downcase }}{% echo v.w %}"}))
+    NAMED_SETS.append(("{% include \"" + _n1 + "\" %}{% render \"" + _n2 + "\" %}{{ own }}", {_n1: "{% liquid\n assign q = r.s\n echo q\n%}{% include \"" + _n2 + "\" %}", _n2: "{{ deep.er[0] | first }}"}))
+
+
 def cases(ctx: core.Ctx):
     rng = ctx.rng("cases")
     if ctx.shard == 0:
+        for msrc, psrc in NAMED_SETS:
+            for is_async in (False, True):
+                yield {"kind": "analysis", "main": msrc, "partials": dict(psrc), "extra": True, "async": is_async}
         for s in HAND:
             for extra in (False, True):
                 yield {"kind": "analysis", "main": s, "partials": {}, "extra": extra, "async": False}
